@@ -198,7 +198,8 @@ SameStruct(ob, ex) ==
 
 WeightsOK(ob, ex) ==
     LET W == SumW(ex, Len(ex))
-    IN  \A j \in DOMAIN ex : ob[j].p.k = "ok" /\ FixNear(Fx(ob[j].p), ToFix(Rat(ex[j].w, W)), 2)
+        \* (no surviving probability at all: "divided by the total surviving probability" says nothing)
+    IN  W = 0 \/ \A j \in DOMAIN ex : ob[j].p.k = "ok" /\ FixNear(Fx(ob[j].p), ToFix(Rat(ex[j].w, W)), 2)
 
 CondClauses(g, p, rs, prune, nodes) ==
     IF Len(nodes) # g.n THEN {"C03.Length"}
